@@ -131,6 +131,27 @@ def corpus(name, mod=None):
                 out.append(c)
         except Exception:
             pass
+    # the country dispatchers have next to no numbers of their own: their corpus is derived from their constituents
+    # (country code + documented valid numbers of every package that offers a `vat` module), as far as they accept them
+    if name in ('vatin', 'eu.vat'):
+        import pkgutil, stdnum
+        from stdnum.util import get_cc_module
+        for _f, cc, ispkg in sorted(pkgutil.iter_modules(stdnum.__path__), key=lambda t: t[1]):
+            if not ispkg or len(cc.rstrip('_')) != 2:
+                continue
+            vm = get_cc_module(cc.rstrip('_'), 'vat')
+            if vm is None:
+                continue
+            vname = vm.__name__[len('stdnum.'):]
+            if vname in ('vatin', 'eu.vat'):
+                continue
+            for x in corpus(vname, vm)[:2]:
+                try:
+                    cand = cc.rstrip('_').upper() + vm.compact(x)
+                    if mod.is_valid(cand) is True and cand not in out:
+                        out.append(cand)
+                except Exception:
+                    pass
     _corpus_cache[name] = out
     return out
 
